@@ -216,7 +216,9 @@ def run_property(prop, tier, specs, level, title, assumptions, functions_hint=()
                           % (what, out[-600:]))
     if xval_bad:
         limits.append('cross-validation mismatch between symbolic run and pristine concrete run: %s'
-                      % json.dumps(xval_bad[:2], default=str)[:800])
+                      % json.dumps([dict(symbolic=b.get('symbolic'), pristine=b.get('pristine'),
+                                         model=dict(list((b.get('model') or {}).items())[:12])) for b in xval_bad[:2]],
+                                   default=str)[:1500])
     if missing_witness:
         limits.append('vacuity guard: ' + '; '.join(missing_witness))
     if limits and rc == 0:
